@@ -70,6 +70,12 @@ type inst struct {
 	// function literals during rewriting
 	mutated  map[*types.Var]bool
 	litStack []*ast.FuncLit
+	// function literals that cannot hand their captured variables to another goroutine: they
+	// are called on the spot (`defer func(){..}()`, `func(){..}()`), never stored, passed or
+	// started with go. Their captured variables are ordinary locals of the enclosing call and
+	// usually live on the goroutine stack, whose addresses are recycled between goroutines -
+	// they must not be fed to the address-keyed race detector.
+	localLit map[*ast.FuncLit]bool
 }
 
 // analysis holds whole-module facts computed before any rewriting.
@@ -219,7 +225,9 @@ func (in *inst) doFile(f *ast.File, fn string) error {
 	in.recvLocal = map[*ast.SelectorExpr]bool{}
 	in.mutated = map[*types.Var]bool{}
 	in.litStack = nil
+	in.localLit = map[*ast.FuncLit]bool{}
 	in.collectMutated(f)
+	in.collectLocalLits(f)
 
 	in.concFile = false
 	ast.Inspect(f, func(n ast.Node) bool {
@@ -481,6 +489,26 @@ func (in *inst) collectMutated(f *ast.File) {
 	})
 }
 
+// collectLocalLits marks function literals that are invoked where they are written and are
+// not the operand of a go statement.
+func (in *inst) collectLocalLits(f *ast.File) {
+	goCalls := map[*ast.CallExpr]bool{}
+	ast.Inspect(f, func(n ast.Node) bool {
+		if g, ok := n.(*ast.GoStmt); ok {
+			goCalls[g.Call] = true
+		}
+		return true
+	})
+	ast.Inspect(f, func(n ast.Node) bool {
+		if ce, ok := n.(*ast.CallExpr); ok && !goCalls[ce] {
+			if lit, ok := unparen(ce.Fun).(*ast.FuncLit); ok {
+				in.localLit[lit] = true
+			}
+		}
+		return true
+	})
+}
+
 // capturedVar reports the variable id refers to if it is a local variable declared outside
 // the innermost enclosing function literal (i.e. shared with the code that created the
 // closure, possibly with other goroutines) and written somewhere after its declaration.
@@ -495,8 +523,18 @@ func (in *inst) capturedVar(id *ast.Ident) *types.Var {
 	if !in.mutated[v] {
 		return nil
 	}
-	lit := in.litStack[len(in.litStack)-1]
-	if v.Pos() >= lit.Pos() && v.Pos() < lit.End() {
+	// shared only if some enclosing literal that can travel (stored, returned, passed, started
+	// with go) closes over it
+	crosses := false
+	for _, lit := range in.litStack {
+		if in.localLit[lit] {
+			continue
+		}
+		if v.Pos() < lit.Pos() || v.Pos() >= lit.End() {
+			crosses = true
+		}
+	}
+	if !crosses {
 		return nil
 	}
 	// sync primitives and typed atomics are handled through their methods
